@@ -1,3 +1,189 @@
 import VgiVerif.Model.C37
+import VgiVerif.Spec.C37
+import VgiVerif.Lemmas.UrlPy
+import VgiVerif.Lemmas.UrlWhatwg
+/-
+C37 property theorems.  Helper lemmas are in `namespace Aux`; the obligations audited by the check are the theorems
+`C37_*` at the end of each section.
+-/
+set_option linter.unusedSimpArgs false
 namespace VgiVerif.C37
+open VgiVerif.PyStr VgiVerif.UrlPy VgiVerif.UrlWhatwg Spec
+
+namespace Aux
+
+/-! ## facts about the extracted constants (re-checked whenever the source changes) -/
+
+theorem shape_rt : Gen.Pkce.returnToShape = .repaired := by rfl
+theorem shape_ou : Gen.Pkce.originalUrlShape = .repaired := by rfl
+
+def loopHost (h : Str) : Bool :=
+  match hostParse h with
+  | .ok host => host == .domain localhostDomain || host == .ipv4 2130706433
+  | _ => false
+
+theorem localhost_facts : ∀ h ∈ Gen.Pkce.localhostNames,
+    h.contains '%' = false ∧ h ≠ [] ∧ (h.contains '[' = false → loopHost h = true) := by decide
+
+theorem scheme_facts : ∀ s ∈ Gen.Pkce.returnToSchemes,
+    defaultPortOf s = UrlWhatwg.defaultPort s ∧ isSpecial s = true ∧ isFile s = false ∧ (defaultPortOf s).isSome = true
+      ∧ s.map asciiLower = s ∧ s.all isSchemeChar = true
+      ∧ (match s with | c :: _ => isAsciiAlpha c | [] => false) = true := by decide
+
+theorem forbidden_facts : Gen.Pkce.netlocForbidden.contains '@' = true ∧ Gen.Pkce.netlocForbidden.contains '[' = true
+    ∧ Gen.Pkce.netlocForbidden.contains ']' = true := by decide
+
+/-- what `_has_unsafe_url_chars` refuses: everything but printable ASCII without the backslash -/
+theorem safe_char {c : Char} (h : isUnsafeChar c = false) : 0x20 < c.toNat ∧ c.toNat < 0x7F ∧ c ≠ '\\' := by
+  have h1 : Gen.Pkce.unsafeLo = 32 := by rfl
+  have h2 : Gen.Pkce.unsafeHi = 127 := by rfl
+  have h3 : Gen.Pkce.unsafeExtra = ['\\'] := by rfl
+  unfold isUnsafeChar at h
+  rw [h1, h2, h3] at h
+  simp only [Bool.or_eq_false_iff, decide_eq_false_iff_not, List.contains_cons, List.contains_nil, Bool.or_false,
+    beq_eq_false_iff_ne] at h
+  exact ⟨by omega, by omega, h.2⟩
+
+theorem clean_of_safe {u : Str} (h : hasUnsafeChars u = false) : Clean u ∧ ∀ c ∈ u, isAscii c = true := by
+  unfold hasUnsafeChars at h
+  rw [List.any_eq_false] at h
+  refine ⟨fun c hc => ?_, fun c hc => ?_⟩
+  · have := safe_char (by simpa using h c hc)
+    exact ⟨this.1, this.2.2⟩
+  · have := safe_char (by simpa using h c hc)
+    simp [isAscii]; omega
+
+/-! ## what an accepting run of the repaired `_validate_return_to` has established -/
+
+theorem repaired_accepts {env : Env} {u : Str} {allow : List Str} {r : Str}
+    (h : validateReturnToRepaired env u allow = .ok r) (hr : r ≠ []) :
+    r = u ∧ u ≠ [] ∧ hasUnsafeChars u = false ∧ ∃ sp prt, urlsplit env u = some sp ∧ port sp.netloc = some prt ∧
+      Gen.Pkce.returnToSchemes.contains sp.scheme = true ∧ sp.netloc ≠ [] ∧
+      sp.netloc.any (fun ch => Gen.Pkce.netlocForbidden.contains ch) = false ∧
+      ((isLocalhost ((hostname sp.netloc).getD []) = true ∧ sp.scheme = sHttp) ∨
+        ∃ dflt, defaultPortOf sp.scheme = some dflt ∧
+          originString sp.scheme ((hostname sp.netloc).getD []) prt dflt ∈ allow) := by
+  unfold validateReturnToRepaired at h
+  split at h
+  · simp only [Except.ok.injEq] at h; exact absurd h.symm hr
+  rename_i h0
+  split at h
+  · simp only [Except.ok.injEq] at h; exact absurd h.symm hr
+  rename_i h1
+  split at h
+  · simp only [Except.ok.injEq] at h; exact absurd h.symm hr
+  rename_i sp hsp
+  split at h
+  · simp only [Except.ok.injEq] at h; exact absurd h.symm hr
+  rename_i prt hprt
+  split at h
+  · simp only [Except.ok.injEq] at h; exact absurd h.symm hr
+  rename_i h2
+  split at h
+  · simp only [Except.ok.injEq] at h; exact absurd h.symm hr
+  rename_i h3
+  split at h
+  · simp only [Except.ok.injEq] at h; exact absurd h.symm hr
+  rename_i h4
+  have hu : u ≠ [] := by
+    intro hu
+    simp [hu] at h0
+  have base : hasUnsafeChars u = false ∧ Gen.Pkce.returnToSchemes.contains sp.scheme = true ∧ sp.netloc ≠ [] ∧
+      sp.netloc.any (fun ch => Gen.Pkce.netlocForbidden.contains ch) = false := by
+    refine ⟨by simpa using h1, by simpa using h2, ?_, by simpa using h4⟩
+    intro hn; simp [hn] at h3
+  dsimp only at h
+  split at h
+  · rename_i h5
+    simp only [Except.ok.injEq] at h
+    simp only [Bool.and_eq_true, beq_iff_eq] at h5
+    exact ⟨h.symm, hu, base.1, sp, prt, hsp, hprt, base.2.1, base.2.2.1, base.2.2.2, Or.inl h5⟩
+  · split at h
+    · cases h
+    · rename_i dflt hd
+      split at h
+      · rename_i h6
+        simp only [Except.ok.injEq] at h
+        exact ⟨h.symm, hu, base.1, sp, prt, hsp, hprt, base.2.1, base.2.2.1, base.2.2.2,
+          Or.inr ⟨dflt, hd, by simpa using h6⟩⟩
+      · simp only [Except.ok.injEq] at h; exact absurd h.symm hr
+
+/-! ## agreement of the two parsers on the authority -/
+
+theorem authEnd_of_netlocEnd {c : Char} (h : isNetlocEnd c = true) : isAuthEnd c = true := by
+  simp only [isNetlocEnd, Bool.or_eq_true] at h
+  simp only [isAuthEnd, Bool.or_eq_true]
+  rcases h with (h | h) | h
+  · exact Or.inl (Or.inl (Or.inl h))
+  · exact Or.inl (Or.inl (Or.inr h))
+  · exact Or.inl (Or.inr h)
+
+theorem not_authEnd {c : Char} (h1 : isNetlocEnd c = false) (h2 : c ≠ '\\') : isAuthEnd c = false := by
+  simp only [isNetlocEnd, Bool.or_eq_false_iff] at h1
+  simp [isAuthEnd, h1.1.1, h1.1.2, h1.2, h2]
+
+theorem separator_visible (u : Str) : 0x20 < (separator u).toNat := by
+  unfold separator; split <;> decide
+
+/-- the common core of `C37_agree` and `C37_return_to`: a clean URL that `urlsplit` gives a special scheme and a plain
+netloc, optionally followed by the fragment separator and anything — the browser runs its host parser on the text
+before the first `:` of Python's netloc and its port state on the text after it. -/
+theorem agree_core (env : Env) (base : Url) (u : Str) (sp : Split) (hc : Clean u) (hsplit : urlsplit env u = some sp)
+    (hsp : isSpecial sp.scheme = true) (hnf : isFile sp.scheme = false) (hn : sp.netloc ≠ [])
+    (h0 : '@' ∉ sp.netloc) (h1 : '[' ∉ sp.netloc) (h2 : ']' ∉ sp.netloc)
+    (w : Str) (hw : w = [] ∨ ∃ t, w = separator u :: t) :
+    ∃ R, parse base (u ++ w) =
+      hostPort sp.scheme [] [] (sp.netloc.takeWhile (· != ':')) (afterColon sp.netloc) R := by
+  have hs : sp.scheme ≠ [] := by
+    intro h; rw [h] at hsp; revert hsp; decide
+  obtain ⟨S, R, hu, hsch, hall, hhead, hN, hR⟩ := urlsplit_shape hc hsplit hs hn
+  have hune : u ≠ [] := by
+    obtain ⟨c, t, rfl, _⟩ := hhead
+    rw [hu]; simp
+  have hcN : Clean sp.netloc := by
+    intro c hcm
+    exact hc c (by rw [hu]; simp [hcm])
+  have hN' : ∀ c ∈ sp.netloc, isAuthEnd c = false := fun c hcm => not_authEnd (hN c hcm) (hcN c hcm).2
+  have hR' : R = [] ∨ ∃ c R', R = c :: R' ∧ isAuthEnd c = true := by
+    rcases hR with h | ⟨c, R', h, hcend⟩
+    · exact Or.inl h
+    · exact Or.inr ⟨c, R', h, authEnd_of_netlocEnd hcend⟩
+  rcases hw with rfl | ⟨t, rfl⟩
+  · refine ⟨R, ?_⟩
+    rw [List.append_nil]
+    rw [parse_absolute base u S sp.netloc R (by rw [UrlWhatwg.preprocess_clean hc]; exact hu) hhead hall
+      (by rw [← hsch]; exact hsp) (by rw [← hsch]; exact hnf) (Or.inl hn) hN' hR', ← hsch]
+    exact authorityParts_plain _ _ _ h0 h1 h2
+  · obtain ⟨t', ht'⟩ := preprocess_clean_append hc hune (separator u) (separator_visible u) t
+    refine ⟨R ++ separator u :: t', ?_⟩
+    have hpre : UrlWhatwg.preprocess (u ++ separator u :: t) = S ++ ':' :: '/' :: '/' :: (sp.netloc ++ (R ++ separator u :: t')) := by
+      rw [ht']
+      have := congrArg (fun x => x ++ separator u :: t') hu
+      simpa only [List.append_assoc, List.cons_append] using this
+    have hR'' : (R ++ separator u :: t') = [] ∨ ∃ c R', (R ++ separator u :: t') = c :: R' ∧ isAuthEnd c = true := by
+      right
+      rcases hR' with rfl | ⟨c, R', rfl, hcend⟩
+      · refine ⟨separator u, t', rfl, ?_⟩
+        have hnc : u.contains '#' = false := by
+          rw [Bool.eq_false_iff]
+          intro hcon
+          have hmem : '#' ∈ u := by simpa using hcon
+          rw [hu] at hmem
+          simp only [List.append_nil, List.mem_append, List.mem_cons] at hmem
+          rcases hmem with hS | h | h | h | hNm
+          · have := hall _ hS; revert this; decide
+          · revert h; decide
+          · revert h; decide
+          · revert h; decide
+          · have := hN _ hNm; revert this; decide
+        unfold separator
+        rw [hnc]
+        decide
+      · exact ⟨c, R' ++ separator u :: t', rfl, hcend⟩
+    rw [parse_absolute base _ S sp.netloc _ hpre hhead hall (by rw [← hsch]; exact hsp) (by rw [← hsch]; exact hnf)
+      (Or.inl hn) hN' hR'', ← hsch]
+    exact authorityParts_plain _ _ _ h0 h1 h2
+
+end Aux
+
 end VgiVerif.C37
